@@ -362,14 +362,21 @@ func (c *c13cfg) body() {
 			if a.seq < r.seq {
 				continue
 			}
-			started := false // was this attempt initiated (host requested / retry decided) after the caller had returned?
+			// was this attempt initiated after the caller had returned? Its host was last offered after the return
+			// (another execution may be offered other hosts meanwhile without sending anything), or a retry on
+			// that host was decided after the return
+			started := false
+			lastOffer := 0
 			for _, o := range w.offers {
-				if o.seq > r.seq && o.seq < a.seq {
-					started = true
+				if o.host == a.host && o.seq < a.seq && o.seq > lastOffer {
+					lastOffer = o.seq
 				}
 			}
+			if lastOffer > r.seq {
+				started = true
+			}
 			for _, k := range w.consults {
-				if k.seq > r.seq && k.seq < a.seq {
+				if k.seq > r.seq && k.seq < a.seq && k.decision == gocql.Retry {
 					started = true
 				}
 			}
